@@ -19,11 +19,23 @@ B32LE, B32BE = "b'\\xff\\xfe\\x00\\x00'", "b'\\x00\\x00\\xfe\\xff'"
 NOBOM = ("not body.startswith(%s) and not body.startswith(%s) and not body.startswith(%s) "
          "and not body.startswith(%s)" % (B8, B16LE, B16BE, B32BE))
 
+DECL = "body[:body.find(b'?>')]"
 C("utils.py::read_xml_encoding", params={"body": "bytes"},
-  ensures=["result is None or body.startswith(b'<?xml')"],
-  result="opt[str]", serves=["C17"], kind="assumed",
-  notes="ASSUMED (body uses a bytes regex; not yet verified): returns None unless the body starts "
-        "with an XML declaration")
+  ensures=[
+      "result is None or body.startswith(b'<?xml')",
+      # "the encoding named in its XML declaration": the name is taken from the declaration,
+      # i.e. from the text before its closing '?>' -- not from anywhere else in the document
+      "result is None or body.find(b'?>') != -1",
+      "result is None or (not re_nomatch('RE_ENCODING', 'search', %s) and "
+      "result == dec('ascii', re_group('RE_ENCODING', 'search', %s, 1)))" % (DECL, DECL),
+      "not (body.startswith(b'<?xml') and body.find(b'?>') != -1 and "
+      "not re_nomatch('RE_ENCODING', 'search', %s)) or result is not None" % DECL,
+  ],
+  result="opt[str]", serves=["C17"],
+  ghost={'harness': ('bounded.bytes_harness', 'read_xml_encoding'),
+         'search': {'generator': ('bounded.bytes_harness', 'gen_xml_decls')}},
+  notes="RE_ENCODING's match is an uninterpreted function of the searched bytes (plus structural "
+        "facts: group 1 is mandatory and ASCII-only)")
 
 TEXT = "ascii_ignore(body)"
 C("utils.py::detect_encoding", params={"body": "bytes", "default_encoding": "str"},
